@@ -16,6 +16,7 @@ chat-marker namespaces which the C++ swallows), the stanza `<error/>` and applic
 (written by `toXml` outside every mode guard — see `Qx.Generated.SceTable.errorWritten/unknownExtensionsWritten`).
 No proofs here; core Lean only.
 -/
+import Qx.Model.C17Spec
 namespace Qx.C17
 
 /-- `QXmpp::SceMode` -/
@@ -36,10 +37,6 @@ def Guard.on : Guard → Mode → Bool
   | .both, _ => true
   | .pubOnly, m => m == .pub
   | .none, _ => false
-
-/-- classification demanded by the property text; assigned by hand (`classOf`), never by the translator -/
-inductive Class | routing | hint | id | fallback | payload
-  deriving DecidableEq, Repr
 
 /-- a top-level child element of `<message/>`: tag, namespace and an opaque token standing for its content -/
 structure Elem where
@@ -76,6 +73,8 @@ structure Row where
   multi : Bool             -- list-valued member
   suppressedBy : List String  -- `else if`: not written when one of these rows has a value
   compiled : Bool          -- false: under `#ifdef BUILD_OMEMO`, absent from the library the check builds
+  catchAll : Bool          -- the unknown extensions (`QXmppStanza::extensions()`): arbitrary elements no recogniser takes;
+                           --   on parsing they are whatever is left over (`PSt.unknown`, replaced by every parse)
   deriving DecidableEq, Repr
 
 structure Table where
@@ -155,41 +154,59 @@ def recover (T : Table) (m : Msg) : PSt :=
 def recoverToXml (T : Table) (m : Msg) : PSt :=
   parseMode T (writeMode T m .sens) .sens true (parseMode T (writeMode T m .pub) .pub true Msg.empty).msg
 
-/-! ## Classification (by hand, from the property text) -/
+/-! ## Classification: the specification (`C17Spec.lean`) applied to what the row puts on the wire -/
 
-/-- Keyed by the generated row name.  Anything the translator emits that is not listed here is `payload`:
-a new extension written in the public block is treated as conversational payload until someone classifies it. -/
-def classOf : String → Class
-  | "e2eeFallbackBody" => .fallback      -- explicit fallback text for clients that cannot decrypt
-  | "fallbackMarkers" => .fallback       -- XEP-0428 explicit fallback markers
-  | "privatemsg" => .hint                -- XEP-0280 <private/>: tells the server not to copy
-  | "hints" => .hint                     -- XEP-0334 processing hints
-  | "encryptionMethod" => .hint          -- XEP-0380: which encryption the ciphertext uses
-  | "stanzaIds" => .id                   -- XEP-0359
-  | "originId" => .id                    -- XEP-0359
-  | "mixUserJid" => .routing             -- XEP-0369 <mix/> added by the channel: who sent it
-  | "extendedAddresses" => .routing      -- XEP-0033
-  | "omemoElement" => .routing           -- XEP-0384 <encrypted/>: per-device key transport + the ciphertext itself
-  | _ => .payload
+/-- the classes of everything the row's writer can produce -/
+def Row.wireClasses (r : Row) : List Class := r.tags.flatMap fun t => r.nss.map fun n => classOfWire t n
 
-def Row.cls (r : Row) : Class := classOf r.name
+/-- The class of a row is decided by the SPEC from the row's wire identities (tag, namespace), not from anything the
+code calls it: all of them must agree on one class, otherwise — and for arbitrary unknown elements — it is `payload`.
+Single exception, see `fallbackTextField`: the field the API designates as explicit fallback text. -/
+def Row.cls (r : Row) : Class :=
+  if r.catchAll then .payload
+  else if r.name == fallbackTextField then .fallback
+  else match r.wireClasses with
+    | [] => .payload
+    | c :: cs => if cs.all (· == c) then c else .payload
+
+/-- rows one of whose wire identities the spec does not know (they default to payload) -/
+def specUnknown (rows : List Row) : List String :=
+  (rows.filter fun r => !r.catchAll && (r.tags.any fun t => r.nss.any fun n => kindOfWire t n == .unknown)).map (·.name)
 
 /-! ## Decidable well-formedness -/
 
-/-- Write side, per row: payload only under the sensitive guard; anything written in both parts (or only in the
-public part but not in the unsplit message) is explicit fallback; wrapper rows are public. -/
-def Row.wfWrite (r : Row) : Bool :=
-  (r.cls != .payload || r.writeGuard == .sens)
-  && (!(r.writeGuard == .both || r.writeGuard == .pubOnly) || r.cls == .fallback || r.wrapper)
-  && (!r.wrapper || r.writeGuard == .pub || r.writeGuard == .both)
-  && r.writeGuard != .none
+/-- payload only under the sensitive guard -/
+def Row.wfPayload (r : Row) : Bool := r.cls != .payload || r.writeGuard == .sens
+
+/-- anything written in both parts (or only in the public part but not in the unsplit message) is explicit fallback -/
+def Row.wfShared (r : Row) : Bool :=
+  !(r.writeGuard == .both || r.writeGuard == .pubOnly) || r.cls == .fallback || r.wrapper
+
+/-- wrapper rows (written by `toXml` only, never into the envelope) are public; every row has a writer -/
+def Row.wfWrapper (r : Row) : Bool :=
+  (!r.wrapper || r.writeGuard == .pub || r.writeGuard == .both) && r.writeGuard != .none
+
+/-- Write side, per row. -/
+def Row.wfWrite (r : Row) : Bool := r.wfPayload && r.wfShared && r.wfWrapper
+
+/-- Two-directional agreement with the spec: payload ⇒ sensitive guard, routing / hint / id ⇒ public guard (a hint
+inside the ciphertext is useless to the server), explicit fallback ⇒ a guard that reaches the public part. -/
+def Row.agreesWithSpec (r : Row) : Bool :=
+  match r.cls with
+  | .payload => r.writeGuard == .sens
+  | .fallback => r.writeGuard == .both || r.writeGuard == .pubOnly || r.writeGuard == .pub
+  | _ => r.writeGuard == .pub || (r.wrapper && r.writeGuard == .both)
+
+def specDisagreements (rows : List Row) : List String := (rows.filter fun r => !r.agreesWithSpec).map (·.name)
 
 /-- Parse side, per row: recognised under the guard it is written under (wrapper rows: by `QXmppStanza::parse`,
 in every mode), and its recogniser accepts everything its writer can produce. -/
 def Row.wfParse (r : Row) : Bool :=
-  (if r.wrapper then r.parseGuard == .both else r.parseGuard == r.writeGuard)
-  && !r.tags.isEmpty && !r.nss.isEmpty
-  && r.tags.all (fun t => r.nss.all fun n => r.recog.accepts t n)
+  if r.catchAll then r.parseGuard == .both && r.recog == .never     -- left-overs are collected in every mode
+  else
+    (if r.wrapper then r.parseGuard == .both else r.parseGuard == r.writeGuard)
+    && !r.tags.isEmpty && !r.nss.isEmpty
+    && r.tags.all (fun t => r.nss.all fun n => r.recog.accepts t n)
 
 /-- `r1`'s recogniser would take an element written by `r2` in a part where both are active -/
 def clash (r1 r2 : Row) : Bool :=
@@ -208,6 +225,9 @@ def Table.sameRows (T : Table) : Bool :=
 /-- everything the write-side theorems need -/
 def WFwrite (T : Table) : Prop := T.rows.all Row.wfWrite = true
 
+/-- the part of it the partition theorems need (nothing about payload) -/
+def WFsplit (T : Table) : Prop := T.rows.all (fun r => r.wfShared && r.wfWrapper) = true
+
 /-- table-global half of the parse-side condition -/
 def WFshape (T : Table) : Prop := T.distinct = true ∧ T.names.Nodup ∧ T.sameRows = true
 
@@ -215,6 +235,7 @@ def WFshape (T : Table) : Prop := T.distinct = true ∧ T.names.Nodup ∧ T.same
 def WFtable (T : Table) : Prop := WFwrite T ∧ WFshape T ∧ T.rows.all Row.wfParse = true
 
 instance (T : Table) : Decidable (WFwrite T) := by unfold WFwrite; infer_instance
+instance (T : Table) : Decidable (WFsplit T) := by unfold WFsplit; infer_instance
 instance (T : Table) : Decidable (WFshape T) := by unfold WFshape; infer_instance
 instance (T : Table) : Decidable (WFtable T) := by unfold WFtable; infer_instance
 
@@ -232,11 +253,20 @@ def offendingToXml (T : Table) : List String :=
 def Table.without (T : Table) (bad : List String) : Table :=
   { rows := T.rows.filter (fun r => !bad.contains r.name), parse := T.parse.filter (fun r => !bad.contains r.name) }
 
+/-- the element is one the row's writer can produce; for the catch-all row: one that no recogniser of the table takes -/
+def Row.owns (T : Table) (r : Row) (e : Elem) : Prop :=
+  if r.catchAll then ∀ r' ∈ T.rows, r'.recog.accepts e.tag e.ns = false else e.tag ∈ r.tags ∧ e.ns ∈ r.nss
+
+instance (T : Table) (r : Row) (e : Elem) : Decidable (r.owns T e) := by unfold Row.owns; infer_instance
+
 /-- message well-formed for a table: every field holds only elements its row's writer can produce, and a field
 suppressed by an `else if` is not set together with its suppressor -/
 def Msg.Valid (T : Table) (m : Msg) : Prop :=
-  ∀ r ∈ T.rows, (∀ e ∈ m r.name, e.tag ∈ r.tags ∧ e.ns ∈ r.nss) ∧ (r.live m = true ∨ m r.name = [])
+  ∀ r ∈ T.rows, (∀ e ∈ m r.name, r.owns T e) ∧ (r.live m = true ∨ m r.name = [])
 
 instance (T : Table) (m : Msg) : Decidable (Msg.Valid T m) := by unfold Msg.Valid; infer_instance
+
+/-- the unknown extensions of a message: the value(s) of the catch-all row(s) -/
+def catchAllValue (T : Table) (m : Msg) : List Elem := T.rows.flatMap fun r => if r.catchAll then m r.name else []
 
 end Qx.C17
